@@ -109,25 +109,37 @@ def run_case(c):
         # the files just written, recorded over again through from_data with MORE blocks asked for than they hold: the header of what
         # comes out describes what is in it (SCANLEN = blocks on disk x samples per block x TBIN)
         if c.get("rerecord") and "error" not in lib and all(not isinstance(s_, dict) for s_ in struct):
-            try:
+            n_in = sum(len(s_) for s_ in struct)
+
+            def attempt(tag):
                 import setigen.voltage as V
-                n_in = sum(len(s_) for s_ in struct)
                 src2 = R.build_source(dict(c, noise=[], signals=[], bg_noise=[]))
                 fb2 = V.PolyphaseFilterbank(num_taps=c["taps"], num_branches=c["nb"])
                 fb2.estimate_channelized_stds(factor=20, seed=3)
                 be2 = V.RawVoltageBackend.from_data(stem, src2, digitizer=V.RealQuantizer(target_fwhm=32, num_bits=8), filterbank=fb2,
                                                     start_chan=c.get("start_chan", 0), num_subblocks=1)
-                stem2 = os.path.join(d, "again")
+                stem2 = os.path.join(d, "again" + tag)
                 with R.quiet():
                     be2.record(output_file_stem=stem2, num_blocks=n_in + 2, length_mode="num_blocks", header_dict={}, digitize=True, load_template=False, verbose=False)
                 out_blocks = []
                 for f in R.list_files(stem2):
                     out_blocks.extend(R.parse_raw_bytes(open(f, "rb").read()))
                 spb2 = c["block_size"] // (c["nants"] * c["nchans"] * (2 * c["num_pols"] * c["nbits"] // 8))
-                res["rerecord"] = dict(n_in=n_in, n_out=len(out_blocks), scanlen=[float(b["hdr"]["SCANLEN"]) for b in out_blocks[:1]],
-                                       tbin=[float(b["hdr"]["TBIN"]) for b in out_blocks[:1]], spb=spb2, obs_length=float(be2.obs_length))
-            except Exception as ex:
-                res["rerecord"] = dict(error=repr(ex)[:300])
+                return dict(n_in=n_in, n_out=len(out_blocks), scanlen=[float(b["hdr"]["SCANLEN"]) for b in out_blocks[:1]],
+                            tbin=[float(b["hdr"]["TBIN"]) for b in out_blocks[:1]], spb=spb2, obs_length=float(be2.obs_length))
+
+            def describe(ex):
+                import traceback
+                return repr(ex)[:200] + " @ " + " <- ".join(l.strip() for l in traceback.format_exc().splitlines()[-7:-1] if l.strip().startswith("File"))[-500:]
+            try:
+                res["rerecord"] = attempt("1")
+            except Exception as ex1:
+                first = describe(ex1)
+                # reported only if it happens again on a second, independent attempt (an error that does not repeat is noted, not reported)
+                try:
+                    res["rerecord"] = dict(attempt("2"), not_repeated=first)
+                except Exception as ex2:
+                    res["rerecord"] = dict(error=describe(ex2))
     return res
 
 
